@@ -306,7 +306,13 @@ def refine_cases(draw, fam, ops=None, force_hole=None):
             spec["shape"].append(draw(nres))
             spec["bounds_z"] = [lo, lo + draw(log_float(0.1, 10.0))]
             spec["periodic"] = [False, draw(st.booleans())]
-    names = ops if ops is not None else RS.known_operators(spec)
+    if ops is not None:
+        names = ops
+    else:
+        # three of four cases use a named operator, one a single-axis derivative pattern
+        g = RS.Geometry(spec)
+        want_pattern = draw(st.integers(0, 3)) == 0
+        names = [n for n in RS.known_operators(spec) if (RS.parse_pattern(g, n) is not None) == want_pattern]
     op = draw(st.sampled_from(names))
     opts = draw(_options(RS.op_info(spec, op)[2]))
     return {"grid": spec, "op": op, "opts": opts, "seed": draw(st.integers(0, 2**32 - 1)),
@@ -319,8 +325,26 @@ def _level_spec(spec, level):
     return s
 
 
-def _make_field(spec, rank, seed, singular):
+class WitnessXX:
+    """T = X (x) X on the embedding of a spherical grid: T_rr = r^2, all other components zero;
+    (div T)_r = 4 r, div div T = 12 (the witness quoted for the known finding F-C01)."""
+
+    fam, rank, D = "sph", 2, 3
+
+    def __init__(self, r_out):
+        self.length = [float(r_out)] * 3
+        self.h = [5e-3 * float(r_out)] * 3
+
+    def __call__(self, X):
+        return np.array([[X[i] * X[j] for j in range(3)] for i in range(3)])
+
+
+def _make_field(spec, rank, seed, singular, preset=None):
     g = RS.Geometry(spec)
+    if preset == "xx":
+        if g.family != "sph" or rank != 2:
+            raise HarnessError("preset 'xx' is a spherical tensor field")
+        return WitnessXX(g.bounds[0][1])
     if g.family == "cart":
         return RC.CartField(g.dim, rank, g.bounds, seed)
     r_in, r_out = g.bounds[0]
@@ -348,7 +372,8 @@ def level_errors(case, level, field=None):
     spec = _level_spec(spec0, level)
     g = RS.Geometry(spec)
     rank_in, rank_out, _ = RS.op_info(spec, op)
-    F = field if field is not None else _make_field(spec0, rank_in, case["seed"], case["singular"])
+    F = field if field is not None else _make_field(spec0, rank_in, case["seed"], case["singular"],
+                                                    case.get("preset"))
     grid = build_grid(spec)
     kw = {k: v for k, v in opts.items() if v != "absent"}
     f = grid.make_operator_no_bc(op, backend=NB, **kw)
@@ -418,7 +443,15 @@ def expected_orders(spec, op, opts):
     return THR_2ND, THR_2ND, "central"
 
 
+#: finest refinement level (N * 2**level cells per axis) tried before a violation is declared
+MAX_LEVEL = {1: 6, 2: 4, 3: 3}
+
+
 def check_refine(case):
+    """Observed order on the levels N, 2N, 4N; while the verdict is negative the case is refined
+    further (the property is about the limit rate, and e.g. the one-sided conservative divergence
+    has the error (dr/r) (1 + O(dr/r)), whose observed order approaches 1 only for dr << r); a
+    violation is declared when the three finest affordable levels still miss the order."""
     spec, op, opts = case["grid"], case["op"], dict(case["opts"])
     g = RS.Geometry(spec)
     thr_i, thr_ii, tag = expected_orders(spec, op, opts)
@@ -435,19 +468,14 @@ def check_refine(case):
             if thr is None:
                 continue
             errs = [l[region] for l in levels]
-            r = _rates(errs, floor)
-            verdict[region] = (r, thr, errs)
-        return verdict, floor
+            verdict[region] = (_rates(errs, floor), thr, errs)
+        return verdict, [k for k, (r, thr, _e) in verdict.items() if r is not None and min(r) < thr]
 
-    verdict, floor = judge()
-    failing = [k for k, (r, thr, _e) in verdict.items() if r is not None and min(r) < thr]
-    refined = False
-    if failing:
-        res, F = level_errors(case, 3, F)
+    verdict, failing = judge()
+    while failing and len(levels) <= MAX_LEVEL[g.num_axes]:
+        res, F = level_errors(case, len(levels), F)
         levels.append(res)
-        refined = True
-        verdict, floor = judge()
-        failing = [k for k, (r, thr, _e) in verdict.items() if r is not None and min(r) < thr]
+        verdict, failing = judge()
     hole = g.family != "cart" and g.r_in > 0
     famtag = g.family + ("+hole" if hole else "")
     if failing:
@@ -455,13 +483,13 @@ def check_refine(case):
         r, thr, errs = verdict[region]
         raise Violation(
             f"{op}{opts} on {spec!r}: max-norm error against the continuum operator in region ({region}) "
-            f"[{'cells at >= 20% of r_out' if region == 'i' else 'all cells'}] at N,2N,4N,8N = "
-            f"{['%.3e' % e for e in errs]}: observed order (slope, finest pair) = ({r[0]:.2f}, {r[1]:.2f}) "
-            f"< required {thr} ({tag}); field seed {case['seed']}",
+            f"[{'cells at >= 20% of r_out' if region == 'i' else 'all cells'}] at N, 2N, 4N, ... = "
+            f"{['%.3e' % e for e in errs]}: observed order on the three finest levels (slope, finest pair) = "
+            f"({r[0]:.2f}, {r[1]:.2f}) < required {thr} ({tag}); field seed {case['seed']}",
             key=f"refine:{famtag}:{op}:{_optkey(opts)}:region-{region}")
     trivial = all(r is None for r, _t, _e in verdict.values())
     labels = [f"{famtag}:{op}", f"opts:{op}:{_optkey(opts)}", f"class:{tag}",
-              "exact(below floor)" if trivial else "measurable", "refined-8N" if refined else "3-levels"]
+              "exact(below floor)" if trivial else "measurable", f"levels:{len(levels)}"]
     if g.family == "cart":
         labels.append(f"cart{g.num_axes}d")
     for region, (r, _thr, _e) in verdict.items():
@@ -478,7 +506,8 @@ def fc01_cases(draw):
     spec = {"cls": "sph", "shape": [draw(st.integers(8, 16))], "radius": [0.0, width], "periodic": [False]}
     cons = True if op == "tensor_divergence" else draw(st.sampled_from([True, "absent"]))
     return {"grid": spec, "op": op, "opts": {"conservative": cons},
-            "seed": draw(st.integers(0, 2**32 - 1)), "singular": False}
+            "seed": draw(st.integers(0, 2**32 - 1)), "singular": False,
+            "preset": draw(st.sampled_from([None, None, None, "xx"]))}
 
 
 def check_fc01(case):
@@ -517,47 +546,49 @@ def check_fc01(case):
 # =========================================================================================
 _RULE_A = (">= 3 cells on every differentiated axis; inputs: dense random, two one-hot (any cell incl. "
            "ghost/corner), ghost-only, integer; tolerance eps*sum|w||u|*(64+16 kappa)")
-_RULE_B = ("error above 1e-9*scale on the two finest levels; orders from N,2N,4N (8N before a violation), "
-           "least-squares slope and finest pair")
+_RULE_B = ("error above 1e-9*scale on the two finest levels; orders from N,2N,4N (refined further, up to 64N "
+           "in 1-d / 16N in 2-d / 8N in 3-d, before a violation), least-squares slope and finest pair")
 
 
-def _stencil(name, classes, kind, mode, q, t, shards):
+def _stencil(name, classes, kind, mode, q, t, shards, tshards):
     return SubCheck(
         name=name, strategy=lambda: stencil_cases(classes, kind), check=check_stencil, mode=mode,
-        budget={"quick": q, "thorough": t}, shards={"quick": shards, "thorough": 4 * shards},
+        budget={"quick": q, "thorough": t}, shards={"quick": shards, "thorough": tshards},
         time_limit={"quick": 150, "thorough": 1500}, rule=_RULE_A)
 
 
-def _refine(name, fam, mode, q, t, shards):
+def _refine(name, fam, mode, q, t, shards, tshards):
     return SubCheck(
         name=name, strategy=lambda: refine_cases(fam), check=check_refine, mode=mode,
-        budget={"quick": q, "thorough": t}, shards={"quick": shards, "thorough": 4 * shards},
+        budget={"quick": q, "thorough": t}, shards={"quick": shards, "thorough": tshards},
         time_limit={"quick": 150, "thorough": 1500}, rule=_RULE_B)
 
 
 _ALL = ("unit", "cart", "polar", "sph", "cyl")
+# measured cost per case (real JIT): stencil 0.15 s (Cartesian) ... 0.7 s (spherical, assertions
+# compiled in); refinement case 0.65 ... 1.3 s; interpreted 1-d cases 5 ... 20 ms
 SUBCHECKS = [
     # (a) real JIT (longest jobs first)
-    _stencil("stencil_spherical", ("sph",), "named", "jit", 240, 8000, 3),
-    _stencil("stencil_cylindrical", ("cyl",), "named", "jit", 160, 6000, 2),
-    _stencil("stencil_cartesian", ("unit", "cart"), "named", "jit", 360, 12000, 2),
-    _stencil("stencil_polar", ("polar",), "named", "jit", 150, 5000, 1),
-    _stencil("stencil_derivative_patterns", _ALL, "patterns", "jit", 180, 5000, 1),
+    _stencil("stencil_spherical", ("sph",), "named", "jit", 150, 6000, 3, 12),
+    _stencil("stencil_cylindrical", ("cyl",), "named", "jit", 120, 5000, 2, 8),
+    _stencil("stencil_cartesian", ("unit", "cart"), "named", "jit", 260, 10000, 2, 8),
+    _stencil("stencil_polar", ("polar",), "named", "jit", 100, 4000, 1, 4),
+    _stencil("stencil_derivative_patterns", _ALL, "patterns", "jit", 140, 5000, 1, 4),
     # (b) compiled operators
-    _refine("refine_cylindrical", "cyl", "jit", 100, 2000, 2),
-    _refine("refine_cartesian", "cart", "jit", 90, 2000, 1),
-    _refine("refine_spherical_jit", "sph", "jit", 40, 800, 1),
-    _refine("refine_polar_jit", "polar", "jit", 30, 600, 1),
+    _refine("refine_cylindrical", "cyl", "jit", 70, 2000, 2, 8),
+    _refine("refine_cartesian", "cart", "jit", 80, 2000, 2, 8),
+    _refine("refine_spherical_jit", "sph", "jit", 24, 800, 1, 4),
+    _refine("refine_polar_jit", "polar", "jit", 20, 600, 1, 4),
     # (b) interpreted breadth for the 1-d grids (no compilation: ~100x cheaper per case)
-    _refine("refine_spherical", "sph", "nojit", 700, 10000, 1),
-    _refine("refine_polar", "polar", "nojit", 400, 6000, 1),
+    _refine("refine_spherical", "sph", "nojit", 700, 10000, 1, 4),
+    _refine("refine_polar", "polar", "nojit", 400, 6000, 1, 4),
     SubCheck(name="known_finding_spherical_origin", strategy=fc01_cases, check=check_fc01, mode="nojit",
              budget={"quick": 12, "thorough": 100}, shards={"quick": 1, "thorough": 1},
              rule="hole-free spherical grid, conservative tensor_divergence / tensor_double_divergence; raises "
                   "the F-C01 known-finding keys while the deviation reproduces"),
     # (a) interpreted breadth and the scipy backend
-    _stencil("stencil_curvilinear_nojit", ("polar", "sph", "cyl"), "named", "nojit", 4500, 60000, 1),
-    _stencil("stencil_cartesian_nojit", ("unit", "cart"), "named", "nojit", 3000, 40000, 1),
-    _stencil("stencil_derivative_patterns_nojit", _ALL, "patterns", "nojit", 1500, 20000, 1),
-    _stencil("stencil_scipy", ("unit", "cart"), "scipy", "pure", 1500, 20000, 1),
+    _stencil("stencil_curvilinear_nojit", ("polar", "sph", "cyl"), "named", "nojit", 4500, 60000, 1, 4),
+    _stencil("stencil_cartesian_nojit", ("unit", "cart"), "named", "nojit", 3000, 40000, 1, 4),
+    _stencil("stencil_derivative_patterns_nojit", _ALL, "patterns", "nojit", 1500, 20000, 1, 2),
+    _stencil("stencil_scipy", ("unit", "cart"), "scipy", "pure", 1500, 20000, 1, 2),
 ]
